@@ -31,6 +31,9 @@ PROP = "C15"
 BODIES = {
     "rs": ["fn main() {", "    let s = \"str\"; // comment", "    let n: u32 = 42;", "}", "pub struct Foo<'a> { x: &'a str }"],
     "py": ["def f(x):", "    return 'a' + str(1)  # c", "class A(object):", "    pass", "import os"],
+    # a cluster (emoji + variation selector) directly after a backslash in a string: themes that colour the escape put a
+    # colour change inside the cluster
+    "py2": ["s = \"\\\u263a\ufe0f\" + 'x'", "t = 1", "u = \"\\\u263a\ufe0f\"", "v = 2", "w = 3"],
     "Makefile": ["all: foo bar", "\t$(CC) -o $@ $^", "# comment", "VAR := value", ".PHONY: all"],
     "txt": ["plain words here", "more (text) \"quoted\" 123", "x = y + 1;", "", "tab\tseparated"],
 }
@@ -95,6 +98,19 @@ def themes():
     return out
 
 
+def hidden_names_by_language():
+    """{language: [names starting with a dot]} from --list-languages (whole names of hidden files: `.env`, `.env.local`)"""
+    env = base_env()
+    p = subprocess.run([build.BIN, "--list-languages"], env=env, stdout=subprocess.PIPE)
+    out = {}
+    for line in p.stdout.decode("utf-8", "replace").splitlines():
+        names = [n for n in re.findall("\x1b\\[32m(.*?)\x1b\\[0m", line) if n.startswith(".") and "/" not in n]
+        lang = line.split("\x1b")[0].strip()
+        if len(names) >= 2 and lang:
+            out[lang] = names
+    return out
+
+
 def languages():
     env = base_env()
     p = subprocess.run([build.BIN, "--list-languages"], env=env, stdout=subprocess.PIPE)
@@ -115,6 +131,9 @@ def run_theme_task(task):
     base = {"no-gitconfig": True, "paging": "never", "detect-dark-light": "never", cls: True,
             "width": "60", "true-color": "always", "file-style": "109", "file-decoration-style": "117 ul",
             "hunk-header-decoration-style": "118 box"}
+    if vec_name.endswith("+sbs"):
+        vec_name = vec_name[:-4]
+        base.update({"side-by-side": True, "width": "100"})
     base.update(STYLE_VECTORS[vec_name])
     renders = {}
     n = 0
@@ -216,7 +235,7 @@ def du_diff(name, lines):
 
 
 def run_lang_task(task):
-    exts, deadline = task
+    exts, deadline = task[0], task[1]
     drv = explore.get_driver()
     base = {"no-gitconfig": True, "paging": "never", "detect-dark-light": "never", "dark": True,
             "width": "80", "true-color": "always", "syntax-theme": "Monokai Extended"}
@@ -293,6 +312,55 @@ def run_lang_task(task):
                     v = Violation(k, "%s.rs is not coloured like x.rs" % e, make_diff(e + ".rs", content, "same").split(b"\n")[:-1])
                     v.args = build_args(base)
                     viols[k] = v
+    # all whole names of hidden files that --list-languages gives for one language colour alike (`.env` like `.env.local`)
+    if task[2]:
+        probe = content + ["KEY=\"value\" # comment", "[section]", "export A=1", "*.o"]
+        for lang, names in sorted(hidden_names_by_language().items()):
+            res = drv.render(cid, [make_diff(nm, probe, "same") for nm in names])
+            n += len(names)
+            rows_ = [hunk_rows(r.out) if not r.panic else None for r in res]
+            for nm, r_ in zip(names[1:], rows_[1:]):
+                if r_ is not None and rows_[0] is not None and r_ != rows_[0]:
+                    k = "same-language-different-colouring"
+                    if k not in viols:
+                        v = Violation(k, "%s: files named %r and %r colour their hunks differently" % (lang, names[0], nm),
+                                      make_diff(nm, probe, "same").split(b"\n")[:-1])
+                        v.args = build_args(base)
+                        viols[k] = v
+        # a deleted file (`+++ /dev/null`) has its name on the minus side: its removed lines are coloured like the same
+        # lines removed from a file that stays
+        cid_ms = drv.mkconfig(build_args(dict(base, **{"minus-style": "syntax 101"})))
+        for nm, key in (("x.rs", "rs"), ("y.py", "py"), ("Makefile", "Makefile")):
+            r1, r2 = drv.render(cid_ms, [deleted_file_diff(nm, BODIES[key]), make_diff(nm, BODIES[key], "removed")])
+            n += 2
+            if not r1.panic and not r2.panic and hunk_rows(r1.out) != hunk_rows(r2.out):
+                v = Violation("deleted-file-language", "the removed lines of the deleted file %s are coloured differently from "
+                              "the same lines removed from the file" % nm, deleted_file_diff(nm, BODIES[key]).split(b"\n")[:-1])
+                v.args = build_args(dict(base, **{"minus-style": "syntax 101"}))
+                viols.setdefault("deleted-file-language", v)
+        drv.drop(cid_ms)
+        # the default language is a matter of names: a file called like it in the working directory changes nothing
+        import os
+        import tempfile
+        d1 = tempfile.mkdtemp(prefix="c15_cwd_", dir=os.path.join(build.BUILD, "tmp") if os.path.isdir(os.path.join(build.BUILD, "tmp")) else None)
+        d2 = tempfile.mkdtemp(prefix="c15_cwd_", dir=os.path.dirname(d1))
+        with open(os.path.join(d2, "python"), "w") as f:
+            f.write("#!/usr/bin/env python\nprint(1)\n")
+        outs_ = []
+        for dd in (d1, d2):
+            drv2 = explore.get_driver(cwd=dd)
+            c2 = drv2.mkconfig(build_args(dict(base, **{"default-language": "python"})))
+            outs_.append(hunk_rows(drv2.render1(c2, make_diff("script", content, "same")).out))
+            drv2.drop(c2)
+            n += 1
+        if outs_[0] != outs_[1]:
+            v = Violation("default-language-reads-file", "--default-language python: a file `python` in the working directory "
+                          "changes how a file of unknown name is coloured", make_diff("script", content, "same").split(b"\n")[:-1])
+            v.args = build_args(dict(base, **{"default-language": "python"}))
+            viols["dlf"] = v
+        import shutil
+        shutil.rmtree(d1, ignore_errors=True)
+        shutil.rmtree(d2, ignore_errors=True)
     # fallback to the default language
     a = hunk_rows(drv.render1(cid_rs, make_diff("x.unknownext", content, "same")).out)
     b = hunk_rows(drv.render1(cid_rs, make_diff("x.rs", content, "same")).out)
@@ -333,7 +401,7 @@ def run_neighbour_task(task):
             "true-color": "always", "syntax-theme": "Monokai Extended"}
     base.update(STYLE_VECTORS[vec_name])
     cid = drv.mkconfig(build_args(base))
-    names = {"rs": "x.rs", "py": "y.py", "Makefile": "Makefile", "txt": "z.unknownext"}
+    names = {"rs": "x.rs", "py": "y.py", "py2": "w.py", "Makefile": "Makefile", "txt": "z.unknownext"}
     viols = {}
     n = 0
     differing = 0
@@ -377,7 +445,7 @@ def main(tier):
     th = themes()
     diffs = []
     for key, lines in BODIES.items():
-        for name in ({"rs": ["x.rs"], "py": ["y.py"], "Makefile": ["Makefile"], "txt": ["z.unknownext"]}[key]):
+        for name in ({"rs": ["x.rs"], "py": ["y.py"], "py2": ["w.py"], "Makefile": ["Makefile"], "txt": ["z.unknownext"]}[key]):
             for kind in ("mixed", "removed", "added", "same"):
                 diffs.append(("%s/%s" % (name, kind), make_diff(name, lines, kind)))
     tasks = []
@@ -386,9 +454,12 @@ def main(tier):
             lst = th[cls]
             for i in range(0, len(lst), 5):
                 tasks.append((vec, cls, lst[i:i + 5], diffs, deadline))
+                if vec in ("syntax", "defaults"):
+                    # side by side (panels are padded to their width: measuring must not depend on where colours change)
+                    tasks.append((vec + "+sbs", cls, lst[i:i + 5], [d for d in diffs if d[0].startswith(("w.py", "x.rs/mixed"))], deadline))
     res = explore.pmap(run_theme_task, tasks)
     exts = languages()
-    lres = explore.pmap(run_lang_task, [(exts[i:i + 40], deadline) for i in range(0, len(exts), 40)])
+    lres = explore.pmap(run_lang_task, [(exts[i:i + 40], deadline, i == 0) for i in range(0, len(exts), 40)])
     nres = explore.pmap(run_neighbour_task, [(v, deadline) for v in ("defaults", "syntax", "mixed")])
     n = sum(r["n"] for r in res) + sum(r["n"] for r in lres) + sum(r["n"] for r in nres)
     viols = []
